@@ -79,6 +79,11 @@ def table_uses(mod, table):
             fn = enclosing_function(n)
             idx = n.slice
             attr = idx.attr if isinstance(idx, ast.Attribute) else None
+            if attr is None and isinstance(idx, ast.Name) and fn is not None:
+                # a local that holds the attribute: `op_string = node.op_string` ... TABLE[op_string]
+                binds = [a_ for a_ in ast.walk(fn) if isinstance(a_, ast.Assign) and any(isinstance(t_, ast.Name) and t_.id == idx.id for t_ in a_.targets)]
+                if len(binds) == 1 and isinstance(binds[0].value, ast.Attribute):
+                    attr = binds[0].value.attr
             out.append((fn, n, attr))
     return out
 
@@ -337,6 +342,26 @@ def r_feature_and_shape(repo, rep, R='R19.4'):
                 ann = {a.arg for a in fn.args.args}
             if fn.name in ('traverse_cat',):
                 ann = {a.arg for a in fn.args.args}
+            if ann and isinstance(parent, ast.Module) and fn.name.startswith('_') and not fn.name.endswith('__'):
+                # a private helper split off a function over categories: the walker inlines it into its callers, and
+                # its shape-specific reads are judged there, under the shape tests of the caller
+                uses = [x for x in ast.walk(mod.tree) if isinstance(x, ast.Name) and x.id == fn.name and isinstance(x.ctx, ast.Load)]
+                callers = set()
+                only_called = bool(uses)
+                from ..core import enclosing_function
+                for x in uses:
+                    p_ = getattr(x, '_parent', None)
+                    if not (isinstance(p_, ast.Call) and p_.func is x):
+                        only_called = False
+                    c_ = enclosing_function(x)
+                    if c_ is None:
+                        only_called = False
+                    elif c_ is not fn:
+                        callers.add(c_)
+                typed = lambda f_: any(a.annotation is not None and 'Category' in src(a.annotation) for a in f_.args.args)
+                if only_called and callers and all(typed(c_) for c_ in callers):
+                    rep.ok(R, '%s:%s %s' % (rel, fn.lineno, fn.name), '%s: private helper, shape-specific reads judged in its callers %s' % (fn.name, sorted(c_.name for c_ in callers)), nontrivial=False)
+                    continue
             if ann:
                 nshape += ru.r_shape_safety(repo, rep, mod, fn, R, typed_params=ann)
     return nfeat, nshape
